@@ -115,6 +115,10 @@ def run(ctx):
             up, dn = sol.displacement(np.array([-3.0, d, 0.25])), sol.displacement(np.array([-3.0, -d, 0.25]))
             up2, dn2 = sol.displacement(np.array([3.0, d, 0.25])), sol.displacement(np.array([3.0, -d, 0.25]))
             recs.append({'ev': 'jump', 'tag': tag, 'up': fx(up), 'dn': fx(dn), 'up2': fx(up2), 'dn2': fx(dn2), 'b': fx(b), 'tol': 16})
+            # ---- continuity across the n axis (m = 0) above and below the line: the displacement has ONE cut, along negative m ---------
+            for yy in (2.0, -2.5):
+                l_, r_ = sol.displacement(np.array([-1e-10, yy, 0.25])), sol.displacement(np.array([1e-10, yy, 0.25]))
+                recs.append({'ev': 'jump', 'tag': tag + ':n_axis', 'up': fx(up), 'dn': fx(dn), 'up2': fx(l_), 'dn2': fx(r_), 'b': fx(b), 'tol': 16})
             # ---- covariance: rotate the crystal frame of the WHOLE problem by a proper signed permutation g -------------------
             perm = rng.permutation(3)
             sg = rng.choice([-1.0, 1.0], 3)
@@ -214,6 +218,20 @@ def run(ctx):
                              'be': be, 'bs': bs, 's': S14, 'got': fx(got, S14), 'tol': 3})
         except Exception as e:
             ctx.violation('isotropic solution raised %s' % excname(e), repr(e)[:200])
+    # ---- weakly anisotropic constants (Zener ratio 1 + 2^-14) with a Burgers component along the slip-plane normal: still the
+    #      anisotropic problem -- the jump is the whole Burgers vector and the stress is the SUPPLIED stiffness contracted with the strain
+    try:
+        mu, lam = 30.0, 45.0
+        Cw = EC(C11=lam + 2 * mu, C12=lam, C44=mu * (1 + 2.0 ** -14))
+        bw = np.array([0.8, 0.35, 0.45])
+        sw = solve_volterra_dislocation(Cw, bw)
+        up, dn = sw.displacement(np.array([-3.0, 1e-9, 0.25])), sw.displacement(np.array([-3.0, -1e-9, 0.25]))
+        up2, dn2 = sw.displacement(np.array([3.0, 1e-9, 0.25])), sw.displacement(np.array([3.0, -1e-9, 0.25]))
+        recs.append({'ev': 'jump', 'tag': 'weakly_anisotropic:climb', 'up': fx(up), 'dn': fx(dn), 'up2': fx(up2), 'dn2': fx(dn2), 'b': fx(bw), 'tol': 16})
+    except ValueError:
+        refusals += 1
+    except Exception as e:
+        ctx.violation('weakly anisotropic Stroh solution raised %s' % excname(e), repr(e)[:200])
     # ---- anisotropic -> isotropic limit ------------------------------------------------------------------------------------------------
     try:
         mu, lam = 30.0, 45.0
